@@ -41,7 +41,7 @@ for p, ks in keys.items():
 confirm = None
 cl = "/var/tmp/confirm_all.log"
 tag = "RESULT %s %s:" % (agent_meta.get("property"), ch)
-for f in (cl, "/var/tmp/confirm_extra.log"):
+for f in (cl, "/var/tmp/confirm_extra.log", "/var/tmp/confirm_wave2.log", "/var/tmp/confirm_wave3.log"):
     if os.path.exists(f):
         for line in open(f):
             if line.startswith(tag):
@@ -57,7 +57,7 @@ meta = {
     "author_reported": {k: agent_meta.get(k) for k in ("compiles", "lib_tests_pass", "demo_fails_with_change", "demo_passes_without_change", "notes")},
     "author_commands": agent_meta.get("commands_run"),
     "confirmed_by_me": {
-        "what_i_ran": "scratch worktree at %s: demo without the patch (expected pass), git apply patch.diff, cargo build --offline, cargo build --offline --features capi, demo with the patch (expected fail) -- /var/tmp/confirm.sh" % base,
+        "what_i_ran": "scratch worktree at %s: demo without the patch (expected pass), git apply patch.diff, cargo build --offline, cargo build --offline --features capi, demo with the patch (expected fail) -- /var/tmp/confirm.sh / confirm2.sh" % base,
         "result": confirm,
         "existing_suite": "the author ran the full `cargo test --offline --lib` with the change (see author_reported.notes: only the load-dependent *_loop_* EAGAIN flakes that also fail on the unmodified tree); I re-ran the lib tests of the touched modules",
     },
